@@ -1,7 +1,7 @@
 package nodis
 
 import (
-	"sync"
+	"sync/atomic"
 	"time"
 
 	"github.com/diiyw/nodis/ds"
@@ -19,25 +19,100 @@ func newTx(store *store) *Tx {
 	}
 }
 
+// lockKey returns the record stored under key, write-locked by this transaction. When there is
+// no such key a placeholder is registered and locked instead, so that concurrent creators of one
+// key are serialized: the first one fills the placeholder in (newKey), the others then find the
+// key it created.
 func (tx *Tx) lockKey(key string) *metadata {
-	tx.store.mu.RLock()
-	m, ok := tx.store.metadata.Get(key)
-	tx.store.mu.RUnlock()
-	verifPoint("lockKey.afterLookup")
-	if ok {
-		if tx.holds(m) && m.writeable {
-			// the command names this key twice (RPOPLPUSH l l, SMOVE s s m, DEL k k ...):
-			// the record is already write-locked by this transaction
-			m.count++
+	return tx.acquire(key, true, true)
+}
+
+// rLockKey returns the record stored under key, read-locked by this transaction, or an empty
+// record when there is no such key.
+func (tx *Tx) rLockKey(key string) *metadata {
+	return tx.acquire(key, false, false)
+}
+
+// lookup returns the record (or placeholder) currently registered under key
+func (s *store) lookup(key string) (*metadata, bool) {
+	if m, ok := s.metadata.Get(key); ok {
+		return m, true
+	}
+	m, ok := s.pending[key]
+	return m, ok
+}
+
+func (tx *Tx) acquire(key string, write, placeholder bool) *metadata {
+	s := tx.store
+	for {
+		s.mu.RLock()
+		m, ok := s.lookup(key)
+		s.mu.RUnlock()
+		verifPoint("lockKey.afterLookup")
+		if !ok {
+			if !placeholder {
+				return m.empty()
+			}
+			s.mu.Lock()
+			if _, ok = s.lookup(key); ok {
+				// somebody else registered the key in the meantime
+				s.mu.Unlock()
+				continue
+			}
+			m = newMetadata()
+			m.key = ds.NewKey(key, 0)
+			if write {
+				m.Lock()
+				m.writeable = true
+			} else {
+				m.RLock()
+			}
+			if s.pending == nil {
+				s.pending = make(map[string]*metadata)
+			}
+			s.pending[key] = m
+			s.mu.Unlock()
+			tx.lockedMetas = append(tx.lockedMetas, m)
 			return m
 		}
-		m.Lock()
-		m.writeable = true
+		if tx.holds(m) {
+			// the command names this key more than once (RPOPLPUSH l l, SMOVE s s m, DEL k k ...)
+			if write && !m.writeable {
+				panic("nodis: key " + key + " is read-locked by this transaction and cannot be write-locked")
+			}
+			if m.isOk() {
+				atomic.AddInt64(&m.count, 1)
+			}
+			return m
+		}
+		if write {
+			m.Lock()
+			m.writeable = true
+		} else {
+			m.RLock()
+		}
+		// the record may have been unlinked (deleted, renamed away, flushed) or replaced while
+		// this transaction was waiting for it: an update made to it now would be lost
+		s.mu.RLock()
+		cur, ok := s.lookup(key)
+		s.mu.RUnlock()
+		if !ok || cur != m {
+			m.commit()
+			continue
+		}
+		if !write && m.value == nil {
+			// the value has to be loaded from storage into the record (or the record is a
+			// placeholder): that needs the write lock even for a reader
+			m.commit()
+			write = true
+			continue
+		}
 		tx.lockedMetas = append(tx.lockedMetas, m)
-		m.count++
+		if m.isOk() {
+			atomic.AddInt64(&m.count, 1)
+		}
 		return m
 	}
-	return m.empty()
 }
 
 // holds reports whether this transaction has already locked the record
@@ -50,53 +125,50 @@ func (tx *Tx) holds(m *metadata) bool {
 	return false
 }
 
-func (tx *Tx) rLockKey(key string) *metadata {
-	tx.store.mu.RLock()
-	m, ok := tx.store.metadata.Get(key)
-	tx.store.mu.RUnlock()
-	verifPoint("rLockKey.afterLookup")
-	if ok {
-		if tx.holds(m) {
-			// already locked (for reading or writing) by this transaction
-			m.count++
-			return m
-		}
-		m.RLock()
-		tx.lockedMetas = append(tx.lockedMetas, m)
-		m.count++
-		return m
-	}
-	return m.empty()
-}
-
+// newKey creates the key: the record registered under it (a placeholder, or the record of a key
+// that is dead) is write-locked by this transaction, filled in and only then published in the index.
 func (tx *Tx) newKey(m *metadata, key string, newFn func() ds.Value) *metadata {
-	if newFn != nil {
-		verifPoint("newKey.beforePublish")
-		tx.store.mu.Lock()
-		if m.RWMutex == nil {
-			m.RWMutex = new(sync.RWMutex)
-		}
-		value := newFn()
-		m.key = ds.NewKey(key, 0)
-		m.setValue(value)
-		m.state |= KeyStateModified
-		if old, replaced := tx.store.metadata.Set(key, m); replaced && old != m {
-			// a dead (expired) record is replaced: its storage entry goes with it
-			old.unpersist(tx.store.ss)
-		}
-		tx.store.mu.Unlock()
-		return m
+	if newFn == nil {
+		return m.empty()
 	}
-	return m.empty()
+	m = tx.lockKey(key)
+	verifPoint("newKey.beforePublish")
+	m.key = ds.NewKey(key, 0)
+	m.setValue(newFn())
+	m.state |= KeyStateModified
+	s := tx.store
+	s.mu.Lock()
+	if s.pending[key] == m {
+		delete(s.pending, key)
+		s.metadata.Set(key, m)
+	}
+	s.mu.Unlock()
+	return m
 }
 
+// delKey unlinks the key. Its record stays locked by this transaction until the commit, and so
+// does the name: a locked placeholder takes the record's place, so that nobody else can claim the
+// name while this transaction still holds other keys (whoever was waiting for the record looks the
+// key up again and then waits for the placeholder).
 func (tx *Tx) delKey(key string) {
-	tx.store.mu.Lock()
-	if m, deleted := tx.store.metadata.Delete(key); deleted {
+	s := tx.store
+	s.mu.Lock()
+	if m, deleted := s.metadata.Delete(key); deleted {
 		// without this the deleted key comes back when the storage is opened again
-		m.unpersist(tx.store.ss)
+		m.unpersist(s.ss)
+		if tx.holds(m) {
+			p := newMetadata()
+			p.key = ds.NewKey(key, 0)
+			p.Lock()
+			p.writeable = true
+			if s.pending == nil {
+				s.pending = make(map[string]*metadata)
+			}
+			s.pending[key] = p
+			tx.lockedMetas = append(tx.lockedMetas, p)
+		}
 	}
-	tx.store.mu.Unlock()
+	s.mu.Unlock()
 }
 
 func (tx *Tx) writeKey(key string, newFn func() ds.Value) *metadata {
@@ -142,7 +214,26 @@ func (tx *Tx) readKey(key string) *metadata {
 }
 
 func (tx *Tx) commit() {
-	for _, meta := range tx.lockedMetas {
+	for i := len(tx.lockedMetas) - 1; i >= 0; i-- {
+		meta := tx.lockedMetas[i]
+		if meta.isOk() {
+			meta.commit()
+			continue
+		}
+		// a placeholder that was not turned into a key
+		if !meta.writeable {
+			meta.RUnlock()
+			if !meta.TryLock() {
+				// shared with another transaction, which will remove it
+				continue
+			}
+			meta.writeable = true
+		}
+		tx.store.mu.Lock()
+		if tx.store.pending[meta.key.Name] == meta {
+			delete(tx.store.pending, meta.key.Name)
+		}
+		tx.store.mu.Unlock()
 		meta.commit()
 	}
 	tx.lockedMetas = tx.lockedMetas[:0]
